@@ -9,6 +9,7 @@ package eval
 import (
 	"errors"
 	"net"
+	"sort"
 	"strings"
 
 	netv1 "k8s.io/api/networking/v1"
@@ -101,6 +102,9 @@ func (pe *PolicyEngine) getPoliciesSelectingPod(peer k8s.Peer, direction netv1.P
 			res = append(res, policy)
 		}
 	}
+	// netpols is a map: give the selecting policies a fixed order (by name), so that which of them is evaluated first,
+	// e.g. the one that allows a connection or the one whose evaluation fails, does not change from run to run
+	sort.Slice(res, func(i, j int) bool { return res[i].Name < res[j].Name })
 	if pe.exposureAnalysisFlag && len(res) > 0 {
 		p.UpdatePodXgressProtectedFlag(direction == netv1.PolicyTypeIngress)
 	}
